@@ -190,6 +190,40 @@ func c08ScannerLoops(r *an.Run) {
 				r.Pass(key+"|bufio-scan", loopPos(l), "for scanner.Scan(): bufio.Scanner returns false at end of input or on the first error, and the loop leaves when it does")
 				continue
 			}
+			if rd := readerCallIn(l); rd != nil {
+				// for { line, err := r.ReadSlice(…); …; if err != nil { return } }: the next iteration is reached
+				// only on the err == nil edges of the read of this one — every iteration consumes input, and a
+				// reader answers with an error (io.EOF at the latest) once there is none left
+				if ne := errNilEdges(rd); len(ne) > 0 {
+					reach := an.Reach([]*ssa.BasicBlock{rd.Block()}, func(b *ssa.BasicBlock, i int) bool {
+						if skipEdges(ne)(b, i) {
+							return true
+						}
+						return !l.Blocks[b.Succs[i]]
+					})
+					back := false
+					for b := range reach {
+						if b == rd.Block() {
+							continue
+						}
+						for _, sx := range b.Succs {
+							if sx == l.Header && !isEdgeIn(ne, b, sx) {
+								back = true
+							}
+						}
+					}
+					// the read's own block may be the header: a way round must come back into it
+					if rd.Block() == l.Header {
+						for _, sx := range rd.Block().Succs {
+							_ = sx
+						}
+					}
+					if !back {
+						r.Pass(key+"|reader-loop", loopPos(l), "the loop reads a line per iteration and goes round only when that read succeeded (%s): it ends with the input", an.TrimModule(an.CalleeName(rd)))
+						continue
+					}
+				}
+			}
 			if phi, st, fld := chainWalker(l); phi != nil {
 				if linkFieldIsSetOnceAtCreation(r, st, fld) {
 					r.Pass(key+"|chain-walk", loopPos(l), "the loop walks down a chain of %s links: every value of %s that comes round is the link below the current one, and that field is only ever set when a link is created, to something that existed before (a chain is finite)", st.Obj().Name(), phi.Comment)
@@ -1048,4 +1082,13 @@ func onlyUsedInInit(r *an.Run, g *ssa.Function) bool {
 		}
 	}
 	return true
+}
+
+func isEdgeIn(edges []an.CtrlEdge, from, to *ssa.BasicBlock) bool {
+	for _, e := range edges {
+		if e.Block == from && e.Succ >= 0 && e.Succ < len(from.Succs) && from.Succs[e.Succ] == to {
+			return true
+		}
+	}
+	return false
 }
